@@ -288,3 +288,11 @@ CLAIMED['C16']['text'] += (' PRECEDENCE, complete (Proofs/ConfigRules.v): one st
     'same effective view -> same verdict. CAN RUN (Proofs/AcceptedRuns.v): Accept of the strategy theorems is exactly builder_accepts plus the Rust type ranges; the builder-accepted configurations that can never send are proved to publish empty rounds by the timing policy and to finish after n; '
     'a configuration accepted by the command-line layer is never one of them; the builder refuses a command-line-accepted configuration exactly for initial_sequence > 64511 or Paris/IPv6 with sequence 0; the composed theorem c16_accepted_runs; the derived channel configuration passes the size guards. '
     'Defect repaired (F22): a source address of the other family than the target was accepted and panicked in Channel::connect; the builder refuses it now (c16_family_mismatch_refused, c16_source_family; e2efam lines through the real builder and Channel::connect).')
+
+CLAIMED['C02']['text'] += (' END TO END for every cell (Proofs/WireShapes.v, WireE2E.v): the bytes the dispatch hands to send_to are exactly the conforming-peer constructors; for every probe the strategy can issue in an accepted configuration the dispatched datagram, '
+    'quoted by any conforming router, is recognised as exactly that probe - ICMP v4/v6 incl. Echo Reply; raw UDP v4/v6 in all three strategies (Dublin via the IP identification, Paris over IPv6 with the computed-zero rule); unprivileged classic UDP and TCP via ICMP '
+    'quotations (what is assumed of the kernel is a predicate, never an axiom); TCP socket outcomes; own probes are never foreign, so the rejection theorems only reject quotations that differ from every probe of this tracer; a response names exactly one probe.')
+CLAIMED['C19']['text'] += (' END TO END (Proofs/NatDevice.v, NatE2E.v): for the Dublin/IPv4 probe as dispatched and quoted unrewritten the recomputed checksum equals the quoted one for all sizes / patterns / ports / addresses, computed zero included; the same probe behind a '
+    'source-NAT device with the RFC 1624 incremental update (three updates = full recomputation); exact conditions for a mark; no hop is ever marked over whole histories of an unrewritten path, in every flow; one device over any history; a closed form for two devices; each per-flow updater pass starts from no carried checksum. '
+    'KNOWN FINDING F23 (c19_port_only_rewrite_refuted, dublin4natport lines): the expected checksum is recomputed from the QUOTED ports, so a device that rewrites only the source port in front of the first responding hop is never shown. '
+    'Observations by witness: a rewrite that preserves the one\'s-complement sum is invisible to any checksum comparison; the mark sits on the first RESPONDING hop, so loss at that hop in a later round marks a second hop.')
